@@ -64,6 +64,12 @@ func (p *Parser) parseMatchAgainst(matchFunc *ast.FunctionCall) (ast.Expression,
 func (p *Parser) parseShowStatement() (ast.Statement, error) {
 	show := &ast.ShowStatement{}
 
+	// SHOW needs something to show: never step over the end of the statement
+	atEnd := func() bool { return p.isType(models.TokenTypeSemicolon) || p.isType(models.TokenTypeEOF) }
+	if atEnd() {
+		return nil, p.expectedError("what to SHOW")
+	}
+
 	upper := strings.ToUpper(p.currentToken.Literal)
 
 	switch upper {
@@ -73,6 +79,9 @@ func (p *Parser) parseShowStatement() (ast.Statement, error) {
 		// Optional FROM database
 		if p.isType(models.TokenTypeFrom) {
 			p.advance()
+			if atEnd() {
+				return nil, p.expectedError("database name")
+			}
 			show.From = p.currentToken.Literal
 			p.advance()
 		}
@@ -90,6 +99,9 @@ func (p *Parser) parseShowStatement() (ast.Statement, error) {
 			}
 			show.ObjectName = name
 		} else {
+			if atEnd() {
+				return nil, p.expectedError("object type after SHOW CREATE")
+			}
 			show.ShowType = "CREATE " + strings.ToUpper(p.currentToken.Literal)
 			p.advance()
 			name, err := p.parseQualifiedName()
